@@ -83,7 +83,11 @@ def GqrCfg.mask (cfg : GqrCfg) : Mask := pmask cfg.masked
 def GqrCfg.inDomain (cfg : GqrCfg) : Bool :=
   match cfg.opt with
   | .unconstrained => true
-  | .maxN | .exactN => decide (effN cfg.nSensors cfg.A ≤ cfg.A.length)
+  | .maxN => decide (effN cfg.nSensors cfg.A ≤ cfg.A.length)
+  -- exact_n only walks through `all_sensors` when it hands over to max_n; while fewer than `s` region sensors are among the
+  -- first N of the supplied ranking (in particular when the optional ranking is omitted, `[]`) it just slices it
+  | .exactN => decide (regionCount cfg.L cfg.A (effN cfg.nSensors cfg.A) < cfg.s) ||
+      decide (effN cfg.nSensors cfg.A ≤ cfg.A.length)
   | .predetermined => cfg.nSensors.isSome
 
 end PsVerif
